@@ -26,7 +26,7 @@ pub(crate) struct Subscriber {
 }
 
 pub(crate) struct PubSocketBackend {
-    subscribers: scc::HashMap<PeerIdentity, Subscriber>,
+    subscribers: Arc<scc::HashMap<PeerIdentity, Subscriber>>,
     socket_monitor: Mutex<Option<mpsc::Sender<SocketEvent>>>,
     socket_options: SocketOptions,
 }
@@ -144,7 +144,7 @@ impl MultiPeerBackend for PubSocketBackend {
         if let Some(monitor) = self.monitor().lock().as_mut() {
             let _ = monitor.try_send(SocketEvent::Disconnected(peer_id.clone()));
         }
-        self.subscribers.remove_sync(peer_id);
+        crate::util::remove_peer_entry(&self.subscribers, peer_id);
     }
 }
 
@@ -212,7 +212,7 @@ impl Socket for PubSocket {
     fn with_options(options: SocketOptions) -> Self {
         Self {
             backend: Arc::new(PubSocketBackend {
-                subscribers: scc::HashMap::new(),
+                subscribers: Arc::new(scc::HashMap::new()),
                 socket_monitor: Mutex::new(None),
                 socket_options: options,
             }),
